@@ -506,12 +506,12 @@ theorem View.resolves (v : View ν α) : v.WF → Resolves v := by
       simp only [View.shape] at hin
       have la := inBounds_length hin
       simp only [lens_length, hlen] at la
-      rw [← mapDimensionsToSource_eq_coords hgood hw.2, access_inBounds hw.2 la, hin]
+      rw [← mapDimensionsToSource_eq_coords_of_good hgood hw.2, access_inBounds hw.2 la, hin]
     · intro a b ha hb h
       have la := inBounds_length ha
       have lb := inBounds_length hb
       simp only [View.shape, lens_length, hlen] at la lb
-      rw [← mapDimensionsToSource_eq_coords hgood hw.2, ← mapDimensionsToSource_eq_coords hgood hw.2] at h
+      rw [← mapDimensionsToSource_eq_coords_of_good hgood hw.2, ← mapDimensionsToSource_eq_coords_of_good hgood hw.2] at h
       exact mapDimensionsToSource_inj hw.2 la lb h
   | transpose s m ih =>
     intro hw
@@ -525,13 +525,13 @@ theorem View.resolves (v : View ν α) : v.WF → Resolves v := by
       simp only [View.shape, transposeShape_lens hlen] at hin
       have la := inBounds_length hin
       simp only [lens_length, hlen] at la
-      rw [← mapDimensionsToSource_eq_coords hgood hw.2, access_inBounds hw.2 la, hin]
+      rw [← mapDimensionsToSource_eq_coords_of_good hgood hw.2, access_inBounds hw.2 la, hin]
     · intro a b ha hb h
       simp only [View.shape, transposeShape_lens hlen] at ha hb
       have la := inBounds_length ha
       have lb := inBounds_length hb
       simp only [lens_length, hlen] at la lb
-      rw [← mapDimensionsToSource_eq_coords hgood hw.2, ← mapDimensionsToSource_eq_coords hgood hw.2] at h
+      rw [← mapDimensionsToSource_eq_coords_of_good hgood hw.2, ← mapDimensionsToSource_eq_coords_of_good hgood hw.2] at h
       exact mapDimensionsToSource_inj hw.2 la lb h
   | stack ss along ih =>
     intro hw
